@@ -1,7 +1,8 @@
 (* Extraction of the control-plane model. ExtrOcamlBasic only; no Extract Constant. *)
 From Coq Require Import ExtrOcamlBasic.
-From UM Require Import Base.BytesDef Base.Dec Base.RespT Model.Ctrl.
+From UM Require Import Base.BytesDef Base.Dec Base.RespT Model.Ctrl Model.Broker Model.CtrlFail.
 Set Extraction Optimize.
 Separate Extraction
   Dec.to_dec Dec.Z_to_dec Dec.btou Dec.btoi_i64 RespT.resp BinNat.N.mul BinNat.N.add
-  Ctrl.init Ctrl.step Ctrl.run Ctrl.installed Ctrl.find_call Ctrl.meta_round Ctrl.mig_round Ctrl.no_faults.
+  Ctrl.init Ctrl.step Ctrl.run Ctrl.installed Ctrl.find_call Ctrl.meta_round Ctrl.mig_round Ctrl.no_faults
+  Broker.init_store CtrlFail.finit CtrlFail.fstep CtrlFail.frun CtrlFail.detect_round CtrlFail.handle_round.
